@@ -24,7 +24,7 @@ VALUES = ("type-directed values of all 170 types: scalars {0,1,max,sign bit,non-
 
 PROPS = {
     "C01": {
-        "theorems": ["FinProto.Obl.C01_mirror", "FinProto.Obl.C01_keys", "FinProto.Obl.C01_widths", "FinProto.Obl.C01_no_unrecognised_statement", "FinProto.Obl.C01_repo", "FinProto.Obl.C01_same", "FinProto.roundtrip", "FinProto.enc_canon_val", "FinProto.enc_canon_val_frame"],
+        "theorems": ["FinProto.Obl.C01_mirror", "FinProto.Obl.C01_keys", "FinProto.Obl.C01_widths", "FinProto.Obl.C01_no_unrecognised_statement", "FinProto.Obl.C01_repo", "FinProto.Obl.C01_api", "FinProto.Obl.C01_same", "FinProto.roundtrip", "FinProto.enc_canon_val", "FinProto.enc_canon_val_frame"],
         "aspects": {**ENC_ALL, **DEC_ALL},
         "rule": VALUES + "Each canonical value is encoded by the real library and by the model, the produced bytes (+ random trailing "
                 "bytes) are decoded by both. distinct = (type, outcome class, length class, buffer history); non-trivial = the message has at "
